@@ -94,6 +94,12 @@ CHECKS["C10"] = dict(
     technique="TLC explicit-state check of a TLA+ refinement over a completely enumerated layout space + TLC trace validation of the real code on every enumerated layout",
     ref="5/C10")
 
+CHECKS["C07"] = dict(
+    text="spec/Scopes.tla is an explicit state machine of scope registration and application: passes register (scope, patch) pairs one at a time on one shared store (Register, NewPass; function scopes refused without functions), Apply resolves sites block by block in address order (block-keyed then scope-keyed modifications, first potential offset, stable sort by (offset, id)). TLC checks ExactlyOncePerMatchingBlock, NoSiteInNonMatchingBlock, NeverAfterTerminator, OrderIsRegistrationOrder, AppliedEqualsSites, RefusalIsExact exhaustively over small modules x registration lists, emits every terminal state as a case; the cases are replayed through the real PassManager with marker patches (unique immediate chosen inside get_asm, recording the InsertionContext) and spec/TraceScopes.tla judges invocations, placement, order, context names and refusals.",
+    note="Bounds: <=3 blocks, all terminator kinds plus zero-sized and data blocks, 0-2 functions, function tables present/empty/absent, x64 ELF + ia32 PE + arm64, 1-3 passes x 0-3 registrations, name filters from a small pattern language. Conformance runs on a seeded sample of the generated cases. ANYWHERE is judged by the weak statement (an instruction boundary not after the terminator).",
+    technique="TLC exhaustive model checking of the registration/application state machine, TLC-generated cases replayed into PassManager, TLC trace validation of marker positions and InsertionContexts",
+    ref="5/C07")
+
 PENDING = {}
 
 
